@@ -397,3 +397,9 @@ def _lemma_rt(*args):
 
 
 SUM_NONNEG = SUM_POS = SUM_CONG = SUM_SPLIT = SUM_SHIFT = SUM_LIN = SUM_CONST = SUM_SCALE = ARR_MONO = MINMAX_EXT = _lemma_rt
+
+
+def index_of(x, v):
+    import numpy as np
+    hits = np.where(np.asarray(x) == v)[0]
+    return int(hits[0]) if len(hits) else -1
